@@ -1385,6 +1385,12 @@ _ret_:
 
 %ifdef SAFE_DATA
         clear_all_xmms_avx_asm
+        ; Clear tweak values (16*8 bytes)
+%assign i 0
+%rep 8
+        vmovdqa [TW + i*16], xmm0
+%assign i (i + 1)
+%endrep
         ; Clear expanded keys (16*11 bytes)
 %assign i 0
 %rep 11
